@@ -147,7 +147,8 @@ def run(model: Model, rep: Report, tier: str) -> None:
         srt = ("call", "sorted", (("listlit", (n1, n2)),), None)
         def is_ix(t, i):
             return t[0] == "index" and t[2] == ("const", i) and t[1][0] == "call" and t[1][1] == "sorted"
-        if not ({x, y} == {n1, n2} or (is_ix(x, 0) and is_ix(y, 1) and x[1] == y[1])):
+        both_ways = (x[0] == "ite" and y[0] == "ite" and x[1] == y[1] and {x[2], y[2]} == {n1, n2} and {x[3], y[3]} == {n1, n2})
+        if not ({x, y} == {n1, n2} or (is_ix(x, 0) and is_ix(y, 1) and x[1] == y[1]) or both_ways):
             problems.append("the kept / dropped nodes it reports are not the two nodes it was given")
     (rep.refuted if problems else rep.proven)("R18.5", construct(fm, "returns-its-nodes"), "; ".join(sorted(set(problems))), loc(fm))
     r18_predicates(model, rep)
